@@ -355,6 +355,13 @@ def extract(prog: Program) -> Model:
                     if k not in _TAG_EXTRA:
                         raise Unmodelled(f"Tag.get_html_string called with unknown keyword `{k}`")
                     m.tag_extra_passed.setdefault(k, set()).add(v)
+    for k, vs in m.tag_extra_passed.items():
+        d_ = _TAG_EXTRA.get(k)
+        if not isinstance(d_, bool):
+            other = [v for v in vs if not (v[0] == "const" and v[1] is d_ or (v[0] == "const" and type(v[1]) is type(d_) and v[1] == d_))]
+            if other:
+                # the frame is explored with the default of such a parameter only: another value would select paths nobody looked at
+                raise Unmodelled(f"Tag.get_html_string: parameter `{k}` (default {d_!r}) is passed {other[0]} by the sibling loop")
 
     # ---- element frame ----------------------------------------------------------------------------------
     cfg3 = Config()
